@@ -816,11 +816,17 @@ func (ch *Channel) canSend() bool {
 // Call before calling nextPacketMsg()
 // Goroutine-safe
 func (ch *Channel) isSendPending() bool {
-	if len(ch.sending) == 0 {
+	// NOTE: ch.sending == nil (and not len(ch.sending) == 0) means "no message
+	// in progress": a zero-length message that was taken from the queue but
+	// whose (only) packet has not been written yet must not be forgotten.
+	if ch.sending == nil {
 		if len(ch.sendQueue) == 0 {
 			return false
 		}
 		ch.sending = <-ch.sendQueue
+		if ch.sending == nil {
+			ch.sending = []byte{}
+		}
 	}
 	return true
 }
